@@ -362,6 +362,89 @@ func c09SourceAddress(c *Ctx, r *Report, rule string) {
 				"a method is called on the source address of a received datagram without a test for nil (the field keeps ReadFrom's address result, stored at "+carriers[fkey{lf[:i], lf[i+1:]}]+"): one datagram from a unixgram socket that is not bound to a path ends the server loop - and the process - with a nil dereference")
 		}
 	}
+	// the address handed to a helper of the package: a method called on that parameter is a call on the address; the
+	// test for nil stands in the helper (on the parameter) or in front of every call that passes the record's field
+	for _, fn := range c.Funcs {
+		if fn.Pkg == nil || short(fn.Pkg.Pkg.Path()) != "layer4" {
+			continue
+		}
+		for _, ci := range callsIn(fn) {
+			cm := ci.Common()
+			if !cm.IsInvoke() {
+				continue
+			}
+			pr, ok := cm.Value.(*ssa.Parameter)
+			if !ok {
+				continue
+			}
+			pi := paramIndex(fn, pr)
+			sites, _ := c.callSitesOf(fn)
+			if pi < 0 || len(sites) == 0 {
+				continue
+			}
+			inCallee := false
+			for _, cond := range edgeConds(ci.Block()) {
+				if y, neq, ok := nilCheck(cond.V); ok && y == ssa.Value(pr) && ((neq && cond.Truth) || (!neq && !cond.Truth)) {
+					inCallee = true
+				}
+			}
+			for _, site := range sites {
+				args := site.Common().Args
+				if pi >= len(args) {
+					continue
+				}
+				var root ssa.Value
+				var chain string
+				if ld, ok := args[pi].(*ssa.UnOp); ok && ld.Op == token.MUL {
+					root, chain = fieldChain(ld.X)
+				} else if fv, ok := args[pi].(*ssa.Field); ok {
+					_, sn, f, _ := fieldAddr(fv)
+					root, chain = fv.X, sn+"."+f+"/"
+				}
+				if root == nil || chain == "" {
+					continue
+				}
+				last := strings.Split(strings.TrimSuffix(chain, "/"), "/")
+				lf := last[len(last)-1]
+				i := strings.LastIndex(lf, ".")
+				if i < 0 {
+					continue
+				}
+				if _, isCarrier := carriers[fkey{lf[:i], lf[i+1:]}]; !isCarrier {
+					continue
+				}
+				n++
+				guarded := inCallee
+				for _, cond := range edgeConds(site.Block()) {
+					y, neq, ok := nilCheck(cond.V)
+					if !ok {
+						continue
+					}
+					var r2 ssa.Value
+					var c2 string
+					if l2, ok := y.(*ssa.UnOp); ok && l2.Op == token.MUL {
+						r2, c2 = fieldChain(l2.X)
+					} else if f2, ok := y.(*ssa.Field); ok {
+						_, sn, f, _ := fieldAddr(f2)
+						r2, c2 = f2.X, sn+"."+f+"/"
+					}
+					sameRoot := r2 == root
+					if !sameRoot && r2 != nil {
+						if a, ok := r2.(*ssa.UnOp); ok {
+							if b, ok := root.(*ssa.UnOp); ok && a.X == b.X {
+								sameRoot = true
+							}
+						}
+					}
+					if sameRoot && c2 == chain && ((neq && cond.Truth) || (!neq && !cond.Truth)) {
+						guarded = true
+					}
+				}
+				r.check(guarded, rule, fname(fn), lf+" -> "+pr.Name()+"."+cm.Method.Name()+"()", c.ipos(ci), "called behind a test that the address is not nil",
+					"a method is called on the source address of a received datagram (handed to "+fname(fn)+" at "+c.ipos(site)+") without a test for nil: one datagram from a unixgram socket that is not bound to a path ends the server loop - and the process - with a nil dereference")
+			}
+		}
+	}
 	if n == 0 {
 		r.bad(rule, "layer4", "uses of the source address", "-", "undecided: no method call on a received packet's address found")
 	}
@@ -471,10 +554,41 @@ func c09CloseIdentity(c *Ctx, r *Report, rule string) {
 		return
 	}
 	n := 0
-	for _, ci := range callsIn(fn) {
+	// one table: the same value, or two loads of the same variable or field
+	sameTable := func(a, b ssa.Value) bool {
+		if a == b {
+			return true
+		}
+		la, ok1 := a.(*ssa.UnOp)
+		lb, ok2 := b.(*ssa.UnOp)
+		if !ok1 || !ok2 || la.Op != token.MUL || lb.Op != token.MUL {
+			return false
+		}
+		if la.X == lb.X {
+			return true
+		}
+		b1, s1, f1, k1 := fieldAddr(la.X)
+		b2, s2, f2, k2 := fieldAddr(lb.X)
+		return k1 && k2 && s1 == s2 && f1 == f2 && b1 == b2
+	}
+	var cands []*ssa.Function
+	for g := range c.reachSync(fn) {
+		if g.Pkg == fn.Pkg {
+			cands = append(cands, g)
+		}
+	}
+	sort.Slice(cands, func(i, j int) bool { return fname(cands[i]) < fname(cands[j]) })
+	var allCalls []ssa.CallInstruction
+	for _, g := range cands {
+		allCalls = append(allCalls, callsIn(g)...)
+	}
+	for _, ci := range allCalls {
 		call, ok := ci.(*ssa.Call)
 		if !ok || calleeID(call) != "builtin delete" || len(call.Call.Args) != 2 {
 			continue
+		}
+		if !strings.HasSuffix(typeStr(call.Call.Args[0].Type()), "layer4.packetConn") {
+			continue // another map
 		}
 		n++
 		m := call.Call.Args[0]
@@ -489,10 +603,10 @@ func c09CloseIdentity(c *Ctx, r *Report, rule string) {
 				isEntry := false
 				switch x := entry.(type) {
 				case *ssa.Lookup:
-					isEntry = x.X == m
+					isEntry = sameTable(x.X, m)
 				case *ssa.Extract:
 					if lk, ok := x.Tuple.(*ssa.Lookup); ok && x.Index == 0 {
-						isEntry = lk.X == m
+						isEntry = sameTable(lk.X, m)
 					}
 				}
 				if !isEntry || !strings.HasSuffix(typeStr(other.Type()), "layer4.packetConn") {
